@@ -108,6 +108,26 @@ CHECKS = {
          "2/C06"),
 }
 
+# argument-form axes added after the wave-d seeds (appended to the level text of each check)
+ADDENDA = {
+ "C01": " Positions are also handed over as an int64 array (atoms on whole-number coordinates), as a nested list and shifted by lattice vectors.",
+ "C02": " Lookup is also driven from SHELX descriptions generated by the reference (true LATT number incl. 6, reference coset reduction, two orders).",
+ "C03": " molecule_environment is also called with a non-default threshold and a centre molecule 0.02 A off the sites.",
+ "C04": " The documented covalent_radii= override (all 8 histories of length 3) and bond_tolerance= (0.7 / default / -0.2 on stretched and ordinary water) are exercised through both entry points.",
+ "C05": " Batch-size independence of rho / weights over 1..131073 points per call (sizes straddling 2^8, 2^12, 2^16, 2^17).",
+ "C06": " The same samples as Fortran-ordered, float64, strided and transposed-view arrays must give the same oriented triangles.",
+ "C09": " kinds='N' is swept with its own calibrated bounds (the P block alone is not: no calibrated bound applies).",
+ "C10": " Provenance includes crystals read from a refinement-style CIF with extra same-prefix loops of other lengths.",
+ "C11": " Operations are also built from int64 rotation matrices (code, string, (N,3)/(N,4) application, Seitz matrix).",
+ "C13": " Partially occupied molecules (0.5 / 0.25) are included in the P1 / supercell density comparison.",
+ "C14": " A seventh structure (P1, Cu 0.6 / Au 0.4 on one position, ndarray occupancies) is explored over the alphabet without the trigonal switches; a sixth has a 1/3-occupancy site 0.04 A off a three-fold axis.",
+ "C15": " The name alphabet holds same-prefix pairs with equal-length and with different-length names.",
+ "C16": " XYZ comment lines: empty, blank, tab, number-like, atom-like, hand-written and library-written, for all 103 elements.",
+ "C18": " Relating rotations down to 2e-6 rad and noise down to 1e-7 are included; the Horn reference evaluates its RMSD directly (achievable value).",
+ "C19": " Integer-valued normals are also given as an int64 array and as nested tuples with list energies.",
+ "C20": " Korobov seed 0 (the smallest valid seed) is covered for batch, single point and front end.",
+}
+
 ALL = ["C%02d" % i for i in range(1, 21)]
 
 def main():
@@ -123,7 +143,7 @@ def main():
             "evidence_file": "/verif/evidence/%s.json" % pid,
             "replay_cmd_template": "./check %s --replay {path}" % pid,
             "engine": "mc",
-            "level_claimed": {"category": level, "text": text, "design_ref": "DESIGN.md section " + ref},
+            "level_claimed": {"category": level, "text": text + ADDENDA.get(pid, ""), "design_ref": "DESIGN.md section " + ref},
             "level_note": note,
             "technique": tech,
         })
